@@ -17,7 +17,9 @@
 #include <functional>
 #include <algorithm>
 #include <exception>
+#include <chrono>
 #include "libvpsc/assertions.h"
+#include "libvpsc/rectangle.h"
 
 extern "C" void __sanitizer_set_death_callback(void (*)(void)) __attribute__((weak));
 
@@ -73,6 +75,7 @@ struct Stats {
     std::set<std::string> known_sigs;
     bool failed_once = false;
     long shrink_evals = 0;
+    std::chrono::steady_clock::time_point first_failure;
     bool replaying = false;
     uint64_t expected = 0, prop_start = 0, prop_samples = 0;   // for spreading the samples over the run
 };
@@ -132,6 +135,10 @@ inline void flush_stats() {
 // not handled by the evaluator itself is classified here.
 inline Verdict guarded(const std::function<Verdict()> &eval) {
     Verdict v;
+    // global state of the libraries is reset before every case (an assertion thrown inside libtopology's
+    // NoIntersection check, for one, leaves the rectangle borders modified)
+    vpsc::Rectangle::setXBorder(0);
+    vpsc::Rectangle::setYBorder(0);
     try {
         v = eval();
     } catch (vpsc::CriticalFailure &f) {
@@ -167,7 +174,11 @@ inline bool record(const std::string &prop, const std::string &body, const std::
     Stats &s = S();
     std::string text = "prop " + prop + "\n" + body;
     if (!text.empty() && text.back() != '\n') text += '\n';
-    if (s.failed_once && ++s.shrink_evals > 3000) return true;   // bound the shrink phase
+    // bound the shrink phase (it only affects how small the reproduction gets, never the verdict): 3000 evaluations or 90 s
+    if (s.failed_once) {
+        double since = std::chrono::duration<double>(std::chrono::steady_clock::now() - s.first_failure).count();
+        if (++s.shrink_evals > 3000 || since > 90) return true;
+    }
     if (!s.dir.empty()) write_file(s.dir + "/current.case", text);
     Verdict v = guarded(eval);
     // A library assertion on a generated (valid) input means the call did not deliver a result at all: it fails this
@@ -200,6 +211,7 @@ inline bool record(const std::string &prop, const std::string &body, const std::
         }
     }
     if (v.ok || known) return true;
+    if (!s.failed_once) s.first_failure = std::chrono::steady_clock::now();
     s.failed_once = true;
     if (!s.dir.empty()) write_file(s.dir + "/pending.case", text);
     fprintf(stderr, "FAIL prop=%s: %s\n", prop.c_str(), v.msg.c_str());
